@@ -477,6 +477,25 @@ func (w *World) pump(cs *connState) {
 			s.cont = sret
 		}
 
+		// C10: the expires summary accessor, at every call
+		if w.mon.C10 {
+			var pv *sipsp.PHdrVals
+			switch x := cs.drv.(type) {
+			case *sut.MsgD:
+				pv = &x.M.PV
+			case *sut.HeadersD:
+				pv = &x.PV
+			case *sut.HdrLineD:
+				pv = &x.PV
+			}
+			if pv != nil {
+				if d := oracle.C10Summary(pv); d != "" {
+					w.fail(cs, "C10", "numeric", d)
+					return
+				}
+			}
+		}
+
 		// C06: framing reference model, at every call ("success exactly when n bytes follow")
 		if md, ok := cs.drv.(*sut.MsgD); ok && w.mon.C06 && cs.msgIdx >= 0 && !cs.tainted {
 			if d := oracle.C06Call(&cs.c.Msgs[cs.msgIdx], cs.c.Cfg, &md.M, buf, cs.start, ret, err, eofCall); d != "" {
@@ -581,6 +600,7 @@ func (w *World) checkForks(cs *connState, buf []byte, baseRet int, baseErr sipsp
 	}
 	var rbase sut.Rec
 	rbase.MaskBody = exempt
+	rbase.MaskBuf = true // msg.Buf is "a reference to buf[]": its extent follows the buffer, not the message
 	rbase.Reset(cs.start, len(buf))
 	guardedSnap(base, &rbase, buf)
 
@@ -609,12 +629,14 @@ func (w *World) checkForks(cs *connState, buf []byte, baseRet int, baseErr sipsp
 		}
 		var rr sut.Rec
 		rr.MaskBody = exempt
+		rr.MaskBuf = true
 		rr.Reset(cs.start, len(ext))
 		guardedSnap(sh, &rr, ext)
 		if !sut.EqualV(rbase.V, rr.V) {
 			var va, vb sut.Rec
 			va.Verbose, vb.Verbose = true, true
 			va.MaskBody, vb.MaskBody = exempt, exempt
+			va.MaskBuf, vb.MaskBuf = true, true
 			va.Reset(cs.start, len(buf))
 			vb.Reset(cs.start, len(ext))
 			guardedSnap(base, &va, buf)
@@ -730,7 +752,8 @@ func (w *World) unitDone(cs *connState, buf []byte, ret int, err sipsp.ErrorHdr,
 				w.fail(cs, "C04", "panic", fmt.Sprintf("%s called again after verdict %d %q (no reset) at offset %d panicked: %s", cs.c.Cfg.Kind, err, err, o2, pan))
 				return
 			}
-			if r2 < 0 || r2 > len(buf) || (r2 < o2 && !sut.IsError(e2)) {
+			// (no ordering rule here: what such a call returns beyond "an offset inside the buffer" is not specified)
+			if r2 < 0 || r2 > len(buf) {
 				w.fail(cs, "C04", "offset-after-finish", fmt.Sprintf("%s called again after verdict %d %q (no reset) with offset %d on a buffer of %d returned (%d,%d %q)", cs.c.Cfg.Kind, err, err, o2, len(buf), r2, e2, e2))
 				return
 			}
